@@ -93,3 +93,26 @@ Theorem C20_disabled_passes_through : forall c z osc,
   z_en z <> ZEnabled -> z_ss_sent z = false -> snd (z_press c z osc) = [ZP osc].
 Proof. exact disabled_passes_through. Qed.
 Print Assumptions C20_disabled_passes_through.
+
+(* ---- "in any order" ---- *)
+From Coq Require Import Permutation Sorting.Sorted.
+From KV Require Import Proofs.C20Sorted.
+(* the lookup key of C20_chord_leaves_exactly_the_expansion (the presses folded into the sorted key list) is the same for every
+   order in which the same keys are pressed *)
+Theorem C20_same_keys_any_order_same_lookup_key : forall a b,
+  (forall x, In x a <-> In x b) ->
+  fold_left (fun ks k => sorted_insert k ks) a [] = fold_left (fun ks k => sorted_insert k ks) b [].
+Proof. exact same_keys_any_order_same_lookup_key. Qed.
+Print Assumptions C20_same_keys_any_order_same_lookup_key.
+
+Theorem C20_permuted_presses_same_lookup_key : forall a b, Permutation a b ->
+  fold_left (fun ks k => sorted_insert k ks) a [] = fold_left (fun ks k => sorted_insert k ks) b [].
+Proof. exact permuted_presses_same_lookup_key. Qed.
+Print Assumptions C20_permuted_presses_same_lookup_key.
+
+(* the list of held keys stays strictly increasing through every press and every release (the lookup and the insertion rely on it;
+   a release that breaks the order makes later chords unreachable) *)
+Theorem C20_held_keys_stay_sorted : forall c z osc, StronglySorted N.lt (z_keys z) ->
+  StronglySorted N.lt (z_keys (fst (z_press c z osc))) /\ StronglySorted N.lt (z_keys (fst (z_release c z osc))).
+Proof. exact held_keys_stay_sorted. Qed.
+Print Assumptions C20_held_keys_stay_sorted.
